@@ -12,9 +12,10 @@ from ..util import KIND, MODEL_NAMES, VERIF, digest_floats, models
 from ..verdict import Inconclusive
 
 PROPERTY = "C14"
+PYTEST_PREFIX = "C14/"
 LEVEL = "exploration"
 RULE = ("(i) frame monitor around every call: __setattr__/__delattr__ tap on the five model classes (armed for the live "
-        "model object between entry and exit), model.__dict__ and openskill.* module-globals snapshots; (ii)/(iii) "
+        "model object between entry and exit), model.__dict__ snapshots (openskill.* module globals are snapshotted too, informational); (ii)/(iii) "
         "history-free oracle: sequences of 5-50 mixed rate/predict calls with random per-call tau/limit_sigma on one "
         "long-lived model, every call re-run on a fresh identically constructed model with fresh rating objects and "
         "compared bit for bit, with ids overwritten (sorted/reversed/equal strings), names permuted; (iv) the same seeded "
@@ -159,10 +160,18 @@ def probe_seq(ctx, payload):
             return
         ctx.ev("frame/no-write")
         ch = attrs_changed(o)
-        if o.writes or ch or o.globals_changed:
+        if o.writes or ch:
             ctx.violation("frame/model-write", "seq", payload,
                           dict(pos=pos, op=op["op"], call=op.get("call"), writes=[w[:3] for w in o.writes[:5]],
-                               attrs_changed=ch[:5], globals_changed=o.globals_changed[:5]), model_name, reg)
+                               attrs_changed=ch[:5]), model_name, reg)
+        if o.globals_changed:
+            # informational only: the property forbids writes to the MODEL and history-dependent numbers; a pure memo
+            # at module level is allowed, a harmful one is caught by the history-free oracle below
+            ctx.count("module_globals_changed_events")
+            g = ctx.notes.setdefault("module_globals_changed", [])
+            for x in o.globals_changed[:3]:
+                if list(x) not in g and len(g) < 10:
+                    g.append(list(x))
         ctx.ev("history-free")
         o2, want = oracle(model_name, cfg, op, Ms)
         if not _same(nums, want):
